@@ -79,12 +79,20 @@ package polling
 //@   ensures[advances_only_with_the_matching_table] result1 == nil ==> storeNotBehind(p) && isTableFor(p.PowerTable, p.NextInstance)
 //@   loop 1
 //@     invariant p.NextInstance >= old(p.NextInstance) && p.Store == old(p.Store) && storeNotBehind(p) && isTableFor(p.PowerTable, p.NextInstance)
+//@     invariant res.Status == PollMiss || res.Status == PollHit
 //@   loop 2
 //@     invariant p.NextInstance >= old(p.NextInstance) && p.Store == old(p.Store) && storeNotBehind(p) && isTableFor(p.PowerTable, p.NextInstance)
+//@     invariant res.Status == PollMiss || res.Status == PollHit
 //@   at ValidateFinalityCertificates 1
 //@     before[validates_against_own_table_and_instance] arg(2) == p.PowerTable && arg(3) == p.NextInstance && arg(1) == p.NetworkName && arg(0) == p.SignatureVerifier
 //@     before[validates_the_received_certificate] len(arg(5)) == 1 && arg(5)[0] == cert
 //@   at Put 1
 //@     before[stores_only_validated_certificates] res(ValidateFinalityCertificates, 1, 3) == nil && arg(2) == cert
 //@   at return 3
-//@     before[invalid_certificate_marks_peer_illegal] res(ValidateFinalityCertificates, 1, 3) != nil && res.Status == PollIllegal
+//@     before[invalid_certificate_marks_peer_illegal] res(ValidateFinalityCertificates, 1, 3) != nil && res.Status == PollIllegal && res.Error == res(ValidateFinalityCertificates, 1, 3) && arg(0) == res && arg(1) == nil
+//@   at return 2
+//@     before[a_failed_request_marks_the_peer_failed] res(Request, 1, 2) != nil && res.Status == PollFailed && res.Error == res(Request, 1, 2) && arg(1) == nil && arg(0) == res
+//@   at return 5
+//@     before[a_finished_poll_is_a_hit_or_a_miss] (res.Status == PollHit || res.Status == PollMiss) && arg(0) == res && arg(1) == nil
+//@   at return 6
+//@     before[claiming_more_but_sending_nothing_marks_the_peer_failed] res.Status == PollFailed && res.ReceivedCertificates == 0 && arg(0) == res && arg(1) == nil
